@@ -1789,6 +1789,13 @@ class TrackSpecificationReader:
                     f"ramp-up-time-period of {task.ramp_up_time_period} seconds."
                 )
 
+        try:
+            # reject an invalid throughput target (e.g. both target-throughput and target-interval) when the track is loaded
+            # and not only when the load generator schedules the task in the middle of the race.
+            _ = task.target_throughput
+        except exceptions.InvalidSyntax as e:
+            self._error(f"Operation '{op.name}' in challenge '{challenge_name}' defines an invalid throughput target: {e}")
+
         return task
 
     def parse_operations(self, ops_specs):
